@@ -32,7 +32,7 @@ for it in range(N):
         cols = [n for n in names if rs.rand() < 0.8] or names[:1]       # securities missing from the table count as zero
         # the table may carry a longer history than the prices: it is read by date, not by position
         uidx = dts if rs.rand() < 0.5 else (dts[:1] - pd.Timedelta(days=3)).append(dts[:1] - pd.Timedelta(days=2)).append(dts)
-        unit[m] = pd.DataFrame(rs.randn(len(uidx), len(cols)) * 3, index=uidx, columns=cols)
+        unit[m] = pd.DataFrame(rs.randn(len(uidx), len(cols)) * 3 * float(rs.choice([1.0, 1.0, 1e-4])), index=uidx, columns=cols)      # measures of very different scale (a PVBP next to a delta)
     hist = int(rs.randint(0, 3))
     s.setup(data, unit_risk=unit)
     s.adjust(1e7)
@@ -73,6 +73,19 @@ for it in range(N):
         inst = list(rs.choice(pool, size=k, replace=False))
         if lazy_decl and names[-1] in pool and names[-1] not in inst: inst[-1] = names[-1]      # hedge with the untraded lazily declared instrument
         J = np.array([[(float(unit[m][i_].loc[dts[2]]) if i_ in unit[m].columns else 0.0) * mults[i_] for m in measures] for i_ in inst])
+        sv = np.linalg.svd(J, compute_uv=False)
+        if sv.min() > 1e-9 and sv.max() / sv.min() < 1e7:
+            # the pseudo-inverse of a regular square Jacobian is its inverse, however differently the measures are scaled: every hedged measure is
+            # neutralised, each judged on its own scale (run on a copy; the tree itself is hedged below)
+            import copy as _copy
+            s2 = _copy.deepcopy(s)
+            try:
+                bt.core.AlgoStack(*ups, A.SelectThese(inst), A.HedgeRisks(hm, pseudo=True), *ups)(s2); s2.update(s2.now); evals += 1
+                for jm, m in enumerate(measures):
+                    sc_m = max(1e-12, float(np.abs(J[:, jm]).max()) * 100)
+                    if abs(s2.risk[m]) > 1e-6 * sc_m: bad("hedged-risk-is-zero", pseudo=True, measure=m, residual=float(s2.risk[m]), scale=sc_m, singular_values=[float(x) for x in sv])
+            except Exception as e:
+                bad("hedge-raised", pseudo=True, error=repr(e)[:200])
         if abs(np.linalg.det(J)) > 1e-3:
             try:
                 stack = bt.core.AlgoStack(*ups, A.SelectThese(inst), A.HedgeRisks(hm), *ups)
@@ -167,6 +180,21 @@ for it in range(N):
         for n in names:
             if abs(s[n].position - expect[n]) > 1e-9: bad("matured-position-rolls-into-target-at-factor-once", security=n, date=str(d), got=float(s[n].position), want=float(expect[n]))
         if s.perm.get("rolled", set()) != done: bad("rolled-set-records-exactly-the-rolled", got=sorted(s.perm.get("rolled", set())), want=sorted(done))
+    # a chain falling due on one date (c0 -> c1 and c1 -> c2): each position that matured moves into ITS target once - what arrives in c1 stays there
+    if n_sec >= 3:
+        s = Strategy("s", [], children=[Security(n) for n in names])
+        f01, f12 = float(rs.choice([0.5, 2.0])), float(rs.choice([1.5, 1.0]))
+        chain = pd.DataFrame({"date": [dts2[2], dts2[2]], "target": [names[1], names[2]], "factor": [f01, f12]}, index=[names[0], names[1]])
+        s.setup(data, roll=chain); s.adjust(1e7); s.update(dts2[0])
+        qc = {n: float(rs.randint(1, 40)) for n in names[:3]}
+        for n in names[:3]: s.transact(qc[n], n)
+        s.update(s.now)
+        algo = A.RollPositionsAfterDates("roll")
+        for d in dts2[1:4]:
+            s.update(d); algo(s); evals += 1
+        want_c = {names[0]: 0.0, names[1]: f01 * qc[names[0]], names[2]: qc[names[2]] + f12 * qc[names[1]]}
+        for n in names[:3]:
+            if abs(s[n].position - want_c[n]) > 1e-9: bad("matured-position-rolls-into-target-at-factor-once", chain=True, security=n, got=float(s[n].position), want=float(want_c[n]))
 print("JSON:" + json.dumps(dict(evaluations=evals, distinct=len(distinct), failures=fails[:5], samples=samples,
       rule="random trees (flat / one nested level, 2-5 securities, multipliers in {0.5,1,10,100}, 1-3 measures, unit-risk tables with missing securities, history depth 0-2): risk per node recomputed; square hedges neutralise every measure; "
            "pseudo-inverse hedge compared with numpy lstsq; close schedules through a Backtest with SelectActive; roll schedules on the direct API with exact expected positions",
